@@ -21,7 +21,9 @@ RULE = (
     'DOM. Depth 1 is enumerated exhaustively, deeper chains are generated. Oracle: reference ladder (override > transport > '
     'BOM/@charset > referring sheet > UTF-8; the override governs every nested import) gives the expected encoding of every '
     'sheet: compared with sheet.encoding, the decoded probe and the fetch log (every target requested). entry: the same for '
-    'parseString(bytes, encoding=), parseUrl and parseFile. target: DOMs from the C02 generator with non-ASCII content x '
+    'parseString(bytes, encoding=), parseUrl and parseFile. target: DOMs from the C02 generator and/or generated pieces that put words '
+    'over Latin-1 / Cyrillic / CJK / astral / NBSP / U+2028 / lone-surrogate and other hex escapes into class, id, type, string, url, '
+    'comment, attribute value, font family, property name, at-keyword, @import, @namespace, @media comment and page name positions x '
     'sheet.encoding = ascii / latin-1 / koi8-r / shift_jis / utf-8 / utf-16 / cp1252: encoding equals the @charset rule, '
     'cssText decodes in it, reparses to the same projection, nothing raises. Non-trivial: two sources of encoding '
     'information disagree, the chain has depth >= 2, or the content has a character outside the target encoding; distinct '
@@ -283,10 +285,49 @@ def check_entry(case, ctx):
 TARGETS = ['ascii', 'latin-1', 'koi8-r', 'shift_jis', 'utf-8', 'utf-16', 'cp1252', 'UTF-8', 'x-nope']
 EXTRA = ['.é { content: "€ 中 \U0001F600"; background: url(ä/ö.png) } /* комментарий */ #中 > .x-é::before { font-family: "Ж" }',
          'a { content: "\\d800 x" }', '@import "é.css"; @namespace п "http://п.example"; п|a { top: 0 }', '@é-rule "中"; .a[title="ü"] { top: 0 }', '']
+CHARS = ['é', 'ü', 'ÿ', 'ß', 'Ж', 'я', '中', '€', '\U0001F600', '\u00a0', '\u2028', '\u0100', 'ｱ', 'a', 'z', '0', '-', '_']
+TEXTONLY = [' ', '\x7f', '(', "'", ';', '{']
+ESCAPED = ['\\d800 ', '\\dfff ', '\\E9 ', '\\20AC ', '\\1F600 ', '\\10FFFF ', '\\a0 ']
+word = st.lists(st.one_of(st.sampled_from(CHARS), st.sampled_from(CHARS), st.sampled_from(ESCAPED), st.sampled_from(TEXTONLY)),
+                min_size=1, max_size=5)
+POSITIONS = ['class', 'id', 'type', 'string', 'url', 'comment', 'attr', 'family', 'propname', 'atkw', 'import', 'nsuri', 'media-comment', 'page-name']
+
+
+def render_piece(pos, atoms, n):
+    ident = ''.join(a for a in atoms if a not in TEXTONLY) or 'k'
+    if ident[0] in '0123456789-':
+        ident = 'x' + ident
+    txt = ''.join(atoms)
+    ctxt = ''.join(a for a in atoms if a not in ESCAPED)  # comments are not escape-decoded consistently (see C03 assumptions)
+    return {
+        'class': '.c%s { top: %d }' % (ident, n),
+        'id': '#i%s { top: %d }' % (ident, n),
+        'type': 'e%s { top: %d }' % (ident, n),
+        'string': 'a { content: "%s"; x-n: %d }' % (txt, n),
+        'url': 'a { background: url("%s"); x-n: %d }' % (txt, n),
+        'comment': '/* %s */ a { x-n: %d }' % (ctxt, n),
+        'attr': 'a[title="%s"] { x-n: %d }' % (txt, n),
+        'family': 'a { font-family: f%s, "%s"; x-n: %d }' % (ident, txt, n),
+        'propname': 'a { x-%s: %d }' % (ident, n),
+        'atkw': '@x-%s "%s";' % (ident, txt),
+        'import': '@import "%s";' % txt,
+        'nsuri': '@namespace n%d "%s";' % (n, txt),
+        'media-comment': '@media print { /* %s */ b { x-n: %d } }' % (ctxt, n),
+        'page-name': '@page p%s { x-n: %d }' % (ident, n),
+    }[pos]
+
+
 target_strategy = st.fixed_dictionaries({
-    'model': st.one_of(st.none(), A.sheet(max_body=3)), 'seed': st.integers(0, 2 ** 30), 'extra': st.integers(0, len(EXTRA) - 1),
+    'model': st.one_of(st.none(), st.none(), A.sheet(max_body=3)), 'seed': st.integers(0, 2 ** 30), 'extra': st.integers(0, len(EXTRA) - 1),
+    'pieces': st.lists(st.tuples(st.sampled_from(POSITIONS), word), max_size=4),
     'target': st.sampled_from(TARGETS), 'second': st.sampled_from([None] + TARGETS),
 })
+
+
+def pieces_text(pieces):
+    order = {'import': 0, 'nsuri': 1}
+    ps = sorted(enumerate(pieces), key=lambda x: (order.get(x[1][0], 2), x[0]))
+    return '\n'.join(render_piece(pos, w, n) for n, (pos, w) in ps)
 
 
 def check_target(case, ctx):
@@ -296,6 +337,11 @@ def check_target(case, ctx):
         m['stmts'] = [s for s in m['stmts'] if s['k'] != 'charset']
         flatten_nested_comments(m['stmts'])
         text = A.render_sheet(m, case['seed']) + text
+    if case.get('pieces'):
+        pt = pieces_text([(x[0], list(x[1])) for x in case['pieces']])
+        # @import / @namespace pieces must stay in front
+        text = pt + '\n' + text if case['model'] is None else text + '\n' + '\n'.join(
+            l for l in pt.split('\n') if not l.startswith(('@import', '@namespace')))
     saved = cssutils.log.raiseExceptions
     cssutils.log.raiseExceptions = False
     try:
